@@ -41,6 +41,7 @@ ASSUMPTIONS = [
     'memory layout (C/F/non-contiguous) exists only on the real side: every array case is replayed in the three '
     'layouts against real NumPy',
     'key intification is decided by CrossHair on the real _intify_keys/_stringify_keys (symbolic str/int keys)',
+    'every string of the tricky-string set is used in both table kinds',
 ]
 STUBS = ['base64 (bijection)', 'virtual file system']
 OUTSIDE = ['QByteArray', 'pickle', 'float formatting of symbolic reals', 'exec of symbolic text']
